@@ -25,6 +25,9 @@ type verifSide struct {
 	idx       bool
 	idxUnique bool
 	idxDesc   bool
+	idxPred   int // index attributes (group 5): 0 none, 1 (b > 0), 2 (b > 1)
+	idxIncl   int // 0 none, 1 INCLUDE (c), 2 INCLUDE (c, b)
+	idxHash   bool
 	pk        bool
 	fk        bool
 	fkDelete  int // 0 "", 1 NO ACTION, 2 CASCADE
@@ -48,6 +51,14 @@ func verifSideOf(tag string, group int) verifSide {
 		s.fk = verifChoice(tag+"_fk", 2) == 1
 		s.chk = verifChoice(tag+"_chk", 2) == 1
 		s.chkExpr = "x"
+		return s
+	}
+	if group == 5 {
+		// index attributes: the index is present on both sides, its attributes vary
+		s.idx = true
+		s.idxPred = verifChoice(tag+"_idx_pred", 3)
+		s.idxIncl = verifChoice(tag+"_idx_incl", 3)
+		s.idxHash = verifBool(tag + "_idx_hash")
 		return s
 	}
 	if group == 4 {
@@ -141,6 +152,19 @@ func (s verifSide) table(sch *schema.Schema, ref *schema.Table, perm bool) *sche
 	if s.idx {
 		i := schema.NewIndex("i").SetUnique(s.idxUnique)
 		i.AddParts(&schema.IndexPart{C: b, Desc: s.idxDesc})
+		if s.idxPred != 0 {
+			i.AddAttrs(&IndexPredicate{P: []string{"", "(b > 0)", "(b > 1)"}[s.idxPred]})
+		}
+		if s.idxIncl != 0 {
+			inc := &IndexInclude{Columns: []*schema.Column{verifColByName(t, "c")}}
+			if s.idxIncl == 2 {
+				inc.Columns = append(inc.Columns, verifColByName(t, "b"))
+			}
+			i.AddAttrs(inc)
+		}
+		if s.idxHash {
+			i.AddAttrs(&IndexType{T: IndexTypeHash})
+		}
 		t.AddIndexes(i)
 	}
 	if s.pk {
@@ -206,6 +230,9 @@ func verifExpected(f, t verifSide) []verifWant {
 		}
 		if f.idxDesc != t.idxDesc {
 			k |= schema.ChangeParts
+		}
+		if f.idxPred != t.idxPred || f.idxIncl != t.idxIncl || f.idxHash != t.idxHash {
+			k |= schema.ChangeAttr
 		}
 		if k != 0 {
 			w = append(w, verifWant{"modify-index", k})
@@ -363,8 +390,17 @@ func verifC02(group int, withSkip bool) {
 	}
 }
 
-func VerifHarness_C02_postgres_col()   { verifC02(0, false) }
-func VerifHarness_C02_postgres_idx()   { verifC02(1, false) }
-func VerifHarness_C02_postgres_rest()  { verifC02(2, false) }
-func VerifHarness_C02_postgres_pairs() { verifC02(3, false) }
-func VerifHarness_C02_postgres_skip()  { verifC02(4, true) }
+func VerifHarness_C02_postgres_col()     { verifC02(0, false) }
+func VerifHarness_C02_postgres_idx()     { verifC02(1, false) }
+func VerifHarness_C02_postgres_rest()    { verifC02(2, false) }
+func VerifHarness_C02_postgres_pairs()   { verifC02(3, false) }
+func VerifHarness_C02_postgres_idxattr() { verifC02(5, false) }
+func VerifHarness_C02_postgres_skip()    { verifC02(4, true) }
+
+func verifColByName(t *schema.Table, name string) *schema.Column {
+	c, ok := t.Column(name)
+	if !ok {
+		panic("no column " + name)
+	}
+	return c
+}
